@@ -135,6 +135,7 @@ Fixpoint process_pred (p : epred) (line : bytes) (ls : lmap) : pout :=
                   end
       end
   | EPIP l neg pat =>
+      if ip_out pat then None else
       match lget ls l with
       | None => Some ([], false, ls)
       | Some s => if existsb (fun b => byte_eqb b ":"%byte) s then None (* IPv6: outside the fragment *) else
@@ -505,6 +506,7 @@ Definition process (o : oracles) (s : estage) (st : dstate) (ts : Z) (line : byt
   match s with
   | ELine m => Some (st, line, str_match false m line, ls)
   | ELineIP neg pat =>
+      if ip_out pat then None else
       match ip_scan (S (length line)) pat line with
       | Some found => Some (st, line, xorb neg found, ls)     (* since the fix of D18: negation of the positive scan *)
       | None => None
